@@ -9,6 +9,16 @@ ID=$1; SEED=${2:-1}
 D=/verif/seeded/$ID
 if [ "${EVAL_IN_PLACE:-0}" = 1 ]; then REPO=/repo; ROOT=/verif; else
   ROOT=/tmp/evalws; REPO=$ROOT/repo
+  if [ ! -d $REPO ]; then
+    # (re)create the evaluation workspace: worktree of /repo at its current HEAD, copy of the harness whose path
+    # dependencies point at that worktree, own target dir (first build compiles everything, RocksDB included)
+    mkdir -p $ROOT/evidence $ROOT/replays $ROOT/work
+    git -C /repo worktree prune; git -C /repo worktree add --detach $REPO HEAD >/dev/null 2>&1
+    rsync -a --exclude target /verif/harness/ $ROOT/harness/
+    sed -i "s|/repo/|$REPO/|g" $ROOT/harness/Cargo.toml
+    printf '[net]\noffline = true\n[build]\ntarget-dir = "%s/target"\n' $ROOT > $ROOT/harness/.cargo/config.toml
+    cp /verif/properties.jsonl $ROOT/; cp -r /verif/replays/* $ROOT/replays/ 2>/dev/null
+  fi
   rsync -a --delete /verif/harness/src/ $ROOT/harness/src/
   cp /verif/known_findings.json $ROOT/known_findings.json; cp /verif/check $ROOT/check
 fi
